@@ -13,22 +13,25 @@ use std::sync::Arc;
 // ---------------------------------------------------------------------------------------------
 // (i) symbolic data type, universal table: application by name has no shortcut
 
+type FlatN<const N: usize> = exmex::FlatEx<Sym, CfgOps<N>, SymMatcher>;
+type DeepN<const N: usize> = DeepEx<'static, Sym, CfgOps<N>, SymMatcher>;
+/// flat or deep expression over the operator factory in thread-local slot N
 #[derive(Clone, Debug, PartialEq)]
-pub enum SEx {
-    F(SFlat),
-    D(SDeep<'static>),
+pub enum SEx<const N: usize> {
+    F(FlatN<N>),
+    D(DeepN<N>),
 }
-impl SEx {
-    fn parse(text: &'static str, deep: bool) -> ExResult<SEx> {
-        Ok(if deep { SEx::D(SDeep::parse(text)?) } else { SEx::F(SFlat::parse(text)?) })
+impl<const N: usize> SEx<N> {
+    fn parse(text: &'static str, deep: bool) -> ExResult<SEx<N>> {
+        Ok(if deep { SEx::D(DeepN::<N>::parse(text)?) } else { SEx::F(FlatN::<N>::parse(text)?) })
     }
-    fn un(self, name: &'static str) -> ExResult<SEx> {
+    fn un(self, name: &'static str) -> ExResult<SEx<N>> {
         Ok(match self {
             SEx::F(e) => SEx::F(e.operate_unary(name)?),
             SEx::D(e) => SEx::D(e.operate_unary(name)?),
         })
     }
-    fn bin(self, other: SEx, name: &'static str) -> ExResult<SEx> {
+    fn bin(self, other: SEx<N>, name: &'static str) -> ExResult<SEx<N>> {
         Ok(match (self, other) {
             (SEx::F(a), SEx::F(b)) => SEx::F(a.operate_binary(b, name)?),
             (SEx::D(a), SEx::D(b)) => SEx::D(a.operate_binary(b, name)?),
@@ -55,9 +58,21 @@ impl SEx {
     }
 }
 
+/// operator indices of a term over table `from` translated (by name) to table `to`
+fn remap(s: &Sym, from: &Table, to: &Table) -> Sym {
+    let tr = |k: u16| to.find(from.ops[k as usize].name).expect("twin tables have the same names");
+    match s {
+        Sym::Un(k, a) => Sym::Un(tr(*k), Arc::new(remap(a, from, to))),
+        Sym::Bin(k, a, b) => Sym::Bin(tr(*k), Arc::new(remap(a, from, to)), Arc::new(remap(b, from, to))),
+        x => x.clone(),
+    }
+}
+
 #[derive(Clone, Debug, Hash, PartialEq, Eq)]
 pub enum SAct {
-    Init(usize, bool),
+    /// pool index, deep?, twin? (twin = the same operators in reverse table order, second
+    /// operator factory; the history is first replayed with the primary factory on this thread)
+    Init(usize, bool, bool),
     Un(usize),
     /// operator index, pool index of the other operand (usize::MAX = a copy of self), other on the left
     Bin(usize, usize, bool),
@@ -67,6 +82,7 @@ pub enum SAct {
 #[derive(Clone)]
 pub struct SymModel {
     pub table: Arc<Table>,
+    pub twin: Arc<Table>,
     pub pool: Arc<Vec<(&'static str, Tree)>>,
     pub un_ops: Vec<u16>,
     pub bin_ops: Vec<u16>,
@@ -75,7 +91,7 @@ pub struct SymModel {
 impl Hist for SymModel {
     type Act = SAct;
     fn roots(&self) -> Vec<Vec<SAct>> {
-        (0..self.pool.len()).flat_map(|i| [vec![SAct::Init(i, false)], vec![SAct::Init(i, true)]]).collect()
+        (0..self.pool.len()).flat_map(|i| [vec![SAct::Init(i, false, false)], vec![SAct::Init(i, true, false)], vec![SAct::Init(i, false, true)], vec![SAct::Init(i, true, true)]]).collect()
     }
     fn enabled(&self, hist: &[SAct], out: &mut Vec<SAct>) {
         for k in 0..self.un_ops.len() {
@@ -98,7 +114,7 @@ impl Hist for SymModel {
         json!(hist
             .iter()
             .map(|a| match a {
-                SAct::Init(i, d) => format!("{} {:?}", if *d { "DeepEx::parse" } else { "FlatEx::parse" }, self.pool[*i].0),
+                SAct::Init(i, d, tw) => format!("{}{} {:?}", if *tw { "[second factory, same operators in reverse table order] " } else { "" }, if *d { "DeepEx::parse" } else { "FlatEx::parse" }, self.pool[*i].0),
                 SAct::Un(k) => format!("operate_unary({:?})", self.table.ops[self.un_ops[*k] as usize].name),
                 SAct::Bin(k, j, left) => format!(
                     "{}operate_binary({}, {:?})",
@@ -111,11 +127,29 @@ impl Hist for SymModel {
             .collect::<Vec<_>>())
     }
     fn run(&self, hist: &[SAct]) -> Outcome {
-        set_table(&self.table);
+        set_table_n(0, &self.table);
+        set_table_n(1, &self.twin);
+        let SAct::Init(_, _, twin) = hist[0] else { unreachable!() };
+        if twin {
+            // both factories are used on this thread, the primary one first
+            let _ = self.replay::<0>(hist);
+            self.replay::<1>(hist)
+        } else {
+            self.replay::<0>(hist)
+        }
+    }
+}
+impl SymModel {
+    fn replay<const N: usize>(&self, hist: &[SAct]) -> Outcome {
         let mut out = Outcome { key: String::new(), bad: vec![], terminal: false, steps: 0 };
-        let SAct::Init(i0, deep) = hist[0] else { unreachable!() };
-        let form = if deep { "deep" } else { "flat" };
-        let mut cur = match SEx::parse(self.pool[i0].0, deep) {
+        let SAct::Init(i0, deep, _) = hist[0] else { unreachable!() };
+        let form = match (deep, N) {
+            (false, 0) => "flat",
+            (true, 0) => "deep",
+            (false, _) => "flat(second factory)",
+            (true, _) => "deep(second factory)",
+        };
+        let mut cur = match SEx::<N>::parse(self.pool[i0].0, deep) {
             Ok(e) => e,
             Err(e) => {
                 out.bad.push((format!("{form}:parse"), format!("pool expression rejected: {}", e.msg())));
@@ -141,7 +175,7 @@ impl Hist for SymModel {
                 }
                 SAct::Bin(k, j, left) => {
                     let op = self.bin_ops[*k];
-                    let (other, other_tree) = if *j == usize::MAX { (cur.clone(), reft.clone()) } else { (SEx::parse(self.pool[*j].0, deep).unwrap(), self.pool[*j].1.clone()) };
+                    let (other, other_tree) = if *j == usize::MAX { (cur.clone(), reft.clone()) } else { (SEx::<N>::parse(self.pool[*j].0, deep).unwrap(), self.pool[*j].1.clone()) };
                     let name = self.table.ops[op as usize].name;
                     let r = if *left {
                         reft = Tree::bin(op, other_tree, reft);
@@ -161,7 +195,7 @@ impl Hist for SymModel {
                 }
                 SAct::Unknown => {
                     out.terminal = true;
-                    out.key = "unknown-name".into();
+                    out.key = format!("unknown-name:{N}");
                     if cur.clone().un("nope").is_ok() || cur.clone().bin(cur.clone(), "nope").is_ok() {
                         out.bad.push((format!("{form}:unknown-operator-accepted"), format!("{:?}: applying the unknown operator \"nope\" did not fail", self.describe(hist))));
                     }
@@ -177,6 +211,7 @@ impl Hist for SymModel {
         } else {
             match cur.eval(&var_syms(vars.len())) {
                 Ok(v) => {
+                    let v = if N == 0 { v } else { remap(&v, &self.twin, &self.table) };
                     let want = reft.eval_sym(&vars, &self.table);
                     if v.contains_dflt() || nf_ac(&v, &self.table) != nf_ac(&want, &self.table) {
                         out.bad.push((format!("{form}:value:{}", canon_tree(&reft, &self.table)), format!("{:?}: value {} instead of {}", self.describe(hist), show(&v, &self.table), show(&want, &self.table))));
@@ -186,7 +221,7 @@ impl Hist for SymModel {
             }
         }
         out.steps += 1;
-        out.key = format!("{}|{}", cur.dump(), reft.show(&self.table));
+        out.key = format!("{N}|{}|{}", cur.dump(), reft.show(&self.table));
         out
     }
 }
@@ -426,13 +461,14 @@ pub fn replay(case: &Value) -> i32 {
 
 pub fn run(tier: Tier) -> i32 {
     let mut rep = Report::new("C10", tier);
-    rep.rule = "explicit-state exploration of operator-application histories over pools of parsed expressions with overlapping and disjoint variable sets: (i) operate_unary/operate_binary by name on FlatEx and DeepEx with the symbolic data type and the universal table (reference tree in lock-step, equality modulo AC); (ii) + - * / pow and neg on DeepEx over exact rationals incl. the neutral-element shortcuts, and by-name application on the flat form (exact equality on a rational grid incl. 0 and 1 wherever the unsimplified form is defined and no power has base zero with a non-positive exponent); distinct = unique structural dumps; non-trivial = at least one application".into();
+    rep.rule = "explicit-state exploration of operator-application histories over pools of parsed expressions with overlapping and disjoint variable sets: (i) operate_unary/operate_binary by name on FlatEx and DeepEx with the symbolic data type and the universal table, and with a second operator factory holding the same operators in reverse table order used on the same thread (reference tree in lock-step, equality modulo AC); (ii) + - * / pow and neg on DeepEx over exact rationals incl. the neutral-element shortcuts, and by-name application on the flat form (exact equality on a rational grid incl. 0 and 1 wherever the unsimplified form is defined and no power has base zero with a non-positive exponent); distinct = unique structural dumps; non-trivial = at least one application".into();
     rep.assumptions = vec!["as C01 for (i); for (ii) exact agreement on a 5-point-per-variable rational grid".into()];
     install_panic_hook();
     // (i)
     let ut = universal_table(PRIO_MAPS[0]);
     let pool_s = read_pool(&["x", "y", "x+y", "1*x", "z/x", "1", "f(y)-2", "2|1"], &ut, LitKind::Sym);
-    let m = SymModel { table: ut.clone(), pool: Arc::new(pool_s), un_ops: vec![5, 12], bin_ops: vec![0, 2, 4, 5, 9, 10], max_len: if tier.thorough() { 4 } else { 3 } };
+    let twin = Table::new(ut.ops.iter().rev().cloned().collect());
+    let m = SymModel { table: ut.clone(), twin, pool: Arc::new(pool_s), un_ops: vec![5, 12], bin_ops: vec![0, 2, 4, 5, 9, 10], max_len: if tier.thorough() { 4 } else { 3 } };
     explore(m, &mut rep, "c10", "symbolic/by-name");
     // (ii)
     let qt = num_table();
